@@ -39,6 +39,12 @@ Theorem C07_min_max_arrival_order :
   aggregate op vals = aggregate op vals'.
 Proof. exact min_max_arrival_order. Qed.
 
+Theorem C07_count_list_set_arrival_order :
+  forall op vals vals', op = ACount \/ op = AList \/ op = ASet ->
+  all_int (filter (fun v => negb (is_null v)) vals) = true -> Permutation vals vals' ->
+  aggregate op vals = aggregate op vals'.
+Proof. exact count_list_set_arrival_order. Qed.
+
 Theorem C07_null_inputs_never_matter :
   forall op vals, documented op = true ->
   aggregate op vals = aggregate op (filter (fun v => negb (is_null v)) vals).
